@@ -31,6 +31,30 @@ def _struct_fields(p):
     return out
 
 
+def field_of_local(fn, e, depth=0):
+    """the AcceptsPrefix field a local variable holds: bound in a struct pattern over AcceptsPrefix, or initialised
+    from a field projection"""
+    e = peel_refs(e)
+    if e.get("k") != "Path" or e["res"].get("r") != "local":
+        return None
+    lid = e["res"]["id"]
+    for p in walk(fn["body"]):
+        if p.get("k") == "Struct" and "fields" in p and str(p.get("adt") or p.get("path") or "").endswith("AcceptsPrefix"):
+            for name, q in _struct_fields(p).items():
+                while isinstance(q, dict) and q.get("k") == "Ref":
+                    q = q["pat"]
+                if isinstance(q, dict) and q.get("k") == "Binding" and q.get("id") == lid:
+                    return name
+        if p.get("k") == "Let" and p.get("init") is not None and depth < 3:
+            q = p["pat"]
+            if isinstance(q, dict) and q.get("k") == "Binding" and q.get("id") == lid:
+                pp = place_path(p["init"])
+                if pp and pp[2]:
+                    return pp[2][-1]
+                return field_of_local(fn, p["init"], depth + 1)
+    return None
+
+
 def printer_table(crate):
     fn = crate.find_fn("typed_ast::accepts_prefix_markup")
     table = {}
@@ -43,7 +67,10 @@ def printer_table(crate):
             order = []
             for e in sc["elems"]:
                 p = place_path(e)
-                order.append(p[2][-1] if p and p[2] else None)
+                if p and p[2]:
+                    order.append(p[2][-1])  # `ap.short`
+                else:  # a local bound to the field by a struct pattern (`let Some(AcceptsPrefix { short, long }) = …`) or by `let s = ap.short`
+                    order.append(field_of_local(fn, e))
         elif not crate.ty(sc).replace("&", "").strip().endswith("AcceptsPrefix"):
             continue
         rows = {}
